@@ -94,7 +94,7 @@ ARITH_BIN = ("arith.addi", "arith.muli", "arith.subi", "arith.andi", "arith.ori"
              "arith.divui", "arith.divsi", "arith.remui", "arith.remsi", "arith.shli")
 OVERFLOW_OPS = ("arith.addi", "arith.muli", "arith.subi", "arith.shli")
 INT_TYPE = re.compile(r"^(i[1-9][0-9]*|index)$")
-TIME_BUDGET_S = 8.0      # per path; wall times on the shared box are inflated several-fold
+TIME_BUDGET_S = 20.0     # per path; wall times on the shared box are inflated several-fold
 
 
 class RecipeInvalid(Exception):
@@ -546,10 +546,15 @@ def _alarm(signum, frame):
 def guarded(fn, *args):
     """('ok', None) | ('raise', exc_info dict) | ('timeout', None)"""
     old = signal.signal(signal.SIGALRM, _alarm)
-    signal.setitimer(signal.ITIMER_REAL, TIME_BUDGET_S)
     try:
-        with quiet():
-            fn(*args)
+        try:
+            signal.setitimer(signal.ITIMER_REAL, TIME_BUDGET_S)
+            with quiet():
+                fn(*args)
+        finally:
+            # disarm before anything else runs (an alarm landing inside an `except` block below
+            # would escape); one landing right here still surfaces as _Timeout and is caught
+            signal.setitimer(signal.ITIMER_REAL, 0)
         return "ok", None
     except _Timeout:
         return "timeout", None
@@ -1105,6 +1110,8 @@ def run_one(h, recipe, label):
     h.case(recipe, changed, label=label, sample=sample)
     if changed:
         h.count("nt_kind:" + label)
+        if sig is None:
+            h.count("nt_both_paths_agree")      # changed payload, clean comparison, equal result
         for f in feats:
             if not f.startswith("corpus:"):
                 h.count("nt_feat:" + f)
